@@ -16,7 +16,7 @@ RULE = ("instruction level: $not[X] for X in {plain item, item with operands, $o
         "level: $not[x] for x in {name, $or of names, $and of two names} as only / first / middle / last operand item with "
         "plain neighbours, all 4 flag settings for the single-name forms; $not meeting capture groups (captures defined after "
         "one or two $not items, back-references inside the argument of a $not at instruction and operand level); x EVERY listing up to the bound (length 4 "
-        "instruction level over 4 instructions; length 2 operand level over 8 instructions with 0..3 operands). Oracle: "
+        "instruction level over 4 instructions; length 2 operand level over 10 instructions with 0..3 operands, incl. operand texts with braces and '*'). Oracle: "
         "reference matcher - verdict, spans genuine and record aligned. Non-trivial = reference finds the rule or its "
         "first item matches somewhere.")
 ASSUMPTIONS = ["operand-level $not against the single empty operand field of an operand-less instruction is treated as "
@@ -30,7 +30,7 @@ ALPHA_I = [("mov", ["%rax", "%rbx"]), ("mov", ["%rbx", "%rax"]), ("push", ["%rax
            ("vpermil2ps", ["$0x0", "%xmm3", "%xmm2", "%xmm1", "%xmm0"])]   # five operands
 ALPHA_O = [("mov", ["%rax", "%rbx"]), ("mov", ["%rbx", "%rax"]), ("mov", ["$0x1", "%rax"]),
            ("mov", ["%rax", "%rbx", "%rcx"]), ("mov", ["%rax"]), ("mov", ["%rbx", "$0x1", "%rax"]), ("mov", ["%rax", "%rax"]),
-           ("ret", [])]
+           ("ret", []), ("vmovaps", ["%zmm1{%k1}{z}", "%rbx"]), ("vmovaps", ["%rax", "%k2{%k3}", "*%rbx"])]   # operand texts with { } *
 
 ARGS_I = ["mov", {"mov": ["rax"]}, "push", {"$or": ["mov", "ret"]}, {"$and": ["mov", "push"]}, {"$and": ["push", "ret"]},
           {"$and_any_order": ["mov", "push"]}, {"$not": ["mov"]}, {"$or": [{"$and": ["mov", "mov"]}, "ret"]},
